@@ -3,3 +3,6 @@ open GrVerif.Props.C19
 #print axioms cut_splits_stream
 #print axioms cut_at_first_is_refused
 #print axioms sentinel_roundtrip
+#print axioms slotjustify_stride_is_pointer_aligned
+#print axioms slotjustify_records_are_aligned
+#print axioms slotjustify_records_do_not_overlap
